@@ -94,6 +94,7 @@ type Engine struct {
 	srcCache  map[string][]byte
 	CurProp   string
 	boxed     []types.Type
+	opaque    map[*ssa.Function]bool
 	recGhost  map[*ssa.Function]bool
 	reachCache map[*ssa.Function]map[*ssa.Function]bool
 	globCache map[*ssa.Function]map[*ssa.Global]bool
@@ -314,7 +315,14 @@ func parseContracts(fset *token.FileSet, f *ast.File, pkgPath string) (map[strin
 					return nil, fmt.Errorf("%s:%d: bad loop clause %q", fname, line, rest)
 				}
 				i := strings.Index(rest, "invariant")
-				lastClause = &Clause{Orig: strings.TrimSpace(rest[i+len("invariant"):]), Line: line}
+				body := strings.TrimSpace(rest[i+len("invariant"):])
+				var tags []string
+				for strings.HasPrefix(body, "@") {
+					t, r, _ := strings.Cut(body, " ")
+					tags = append(tags, t[1:])
+					body = strings.TrimSpace(r)
+				}
+				lastClause = &Clause{Orig: body, Line: line, Tags: tags}
 				ls := cur.Loops[n]
 				if ls == nil {
 					ls = &LoopSpec{N: n}
